@@ -67,6 +67,7 @@ func checkC04(tier, replay string) int {
 	})
 	// long programs: both encodings of the architecture jump
 	runS6Policy(r, "quick")
+	runS1Table(r, "quick")
 	runArchJumpSweep(r)
 	r.finish("scope S1 (all architectures), S3 (<=2 entries, <=2 conditions) and the long-program scope S6 are compiled and run on the exact partition extended by every AUDIT_ARCH constant of linux/audit.h, 0, own+-1, own with bit 30/31 flipped and 0xFFFFFFFF as architecture word, and by nr in {0x3FFFFFFF, 0x40000000, 0x40000000|n for every listed n, 0x7FFFFFFF, 0x80000000, 0xFFFFFFFF}, in full product with the argument cells (including those that satisfy the rules); plus a sweep of policies whose architecture-jump distance takes every value 240..270 (names-only and with conditions) on all architectures so that both encodings of that jump and the switch at 255 are executed; only foreign/x32 events are judged here; non-trivial = >= 2 distinct decisions")
 	ctx.Assumptions = []string{"reference: first two lines of refsem.Decide (foreign arch -> default; x86_64 nr >= 0x40000000 -> ERRNO|ENOSYS)", "partition argument of DESIGN 2.4"}
@@ -82,11 +83,14 @@ func runArchJumpSweep(r *compileRun) {
 			k     int
 			conds int
 			two   bool
+			def   seccomp.Action
 		}
 		var jobs []job
 		for k := 225; k <= 275 && k <= len(names); k++ {
 			for conds := 0; conds <= 3; conds++ {
-				jobs = append(jobs, job{k, conds, false}, job{k, conds, true})
+				for _, def := range []seccomp.Action{seccomp.ActionErrno, seccomp.ActionKillProcess, seccomp.ActionLog} {
+					jobs = append(jobs, job{k, conds, false, def}, job{k, conds, true, def})
+				}
 			}
 		}
 		parallelFor(len(jobs), func(i int) {
@@ -95,7 +99,7 @@ func runArchJumpSweep(r *compileRun) {
 			for c := 0; c < j.conds; c++ {
 				g.NamesWithCondtions = append(g.NamesWithCondtions, seccomp.NameWithConditions{Name: names[len(names)-1-c], Conditions: seccomp.ArgumentConditions{{Argument: 0, Operation: seccomp.Equal, Value: uint64(c + 1)}}})
 			}
-			p := &seccomp.Policy{DefaultAction: seccomp.ActionKillProcess, Syscalls: []seccomp.SyscallGroup{g}}
+			p := &seccomp.Policy{DefaultAction: j.def, Syscalls: []seccomp.SyscallGroup{g}}
 			if j.two {
 				p.Syscalls = append(p.Syscalls, seccomp.SyscallGroup{Action: seccomp.ActionErrno, Names: []string{names[len(names)-5]}})
 			}
